@@ -40,7 +40,8 @@ pub fn install() {
             }
         }
         let in_harness = rec2.location.starts_with("src/") || rec2.location.contains("/verif/");
-        if in_harness || std::env::var("VERIF_PRINT_PANICS").is_ok() {
+        // "verif: ..." panics are the harness stopping a looping command on purpose
+        if (in_harness && !rec2.message.starts_with("verif:")) || std::env::var("VERIF_PRINT_PANICS").is_ok() {
             eprintln!("panic: {:?}", rec2);
         }
     }));
